@@ -193,5 +193,149 @@ impl RankSelect {
         }
     }
 }
+
+/// R13: trusted stub for `(X as f64 / 8.0).ceil() as usize`
+#[verifier::external_body]
+fn ceil_div8(x: u64) -> (r: usize)
+    requires x < 0x20_0000_0000_0000
+    ensures r == (x + 7) / 8
+{ unimplemented!() }
+
+/// number of bits equal to t among positions [lo, hi); padding positions count as `false`
+pub open spec fn cnt(v: &BitVec<u8>, t: bool, lo: int, hi: int) -> nat decreases hi - lo {
+    if hi <= lo { 0 } else { cnt(v, t, lo, hi - 1) + if v.bit_or_pad(hi - 1) == t { 1nat } else { 0nat } }
+}
+proof fn lemma_cnt_ones(v: &BitVec<u8>, lo: int, hi: int)
+    requires lo <= hi
+    ensures cnt(v, true, lo, hi) == ones(v, lo, hi), cnt(v, false, lo, hi) == (hi - lo) - ones(v, lo, hi)
+    decreases hi - lo
+{
+    if hi > lo { lemma_cnt_ones(v, lo, hi - 1); }
+}
+
+proof fn lemma_cnt_split(v: &BitVec<u8>, t: bool, lo: int, mid: int, hi: int)
+    requires lo <= mid <= hi
+    ensures cnt(v, t, lo, hi) == cnt(v, t, lo, mid) + cnt(v, t, mid, hi)
+    decreases hi - mid
+{
+    if hi > mid { lemma_cnt_split(v, t, lo, mid, hi - 1); }
+}
+proof fn lemma_cnt_bound(v: &BitVec<u8>, t: bool, lo: int, hi: int)
+    requires lo <= hi
+    ensures cnt(v, t, lo, hi) <= hi - lo
+    decreases hi - lo
+{
+    if hi > lo { lemma_cnt_bound(v, t, lo, hi - 1); }
+}
+proof fn lemma_block_cnt(v: &BitVec<u8>, t: bool, b: int, byte: u8)
+    requires forall|i: int| 0 <= i < 8 ==> (#[trigger] bit8(byte, i) == 1) == v.bit_or_pad(8 * b + i)
+    ensures cnt(v, t, 8 * b, 8 * b + 8) == (if t { popcount8(byte) } else { (8 - popcount8(byte)) as nat })
+{
+    lemma_block_ones(v, b, byte, 8);
+    lemma_cnt_ones(v, 8 * b, 8 * b + 8);
+}
+/// number of superblock entries after `block` blocks have been visited
+pub open spec fn nsb(block: int, s: int) -> int { if block == 0 { 0 } else { (8 * block - 8) / s + 1 } }
+proof fn lemma_nsb(block: int, s: int)
+    requires block >= 0, s >= 8, s % 8 == 0
+    ensures (8 * block) % s == 0 ==> nsb(block + 1, s) == nsb(block, s) + 1 && nsb(block, s) * s == 8 * block,
+        (8 * block) % s != 0 ==> nsb(block + 1, s) == nsb(block, s),
+        nsb(block + 1, s) * s >= 8 * block + 8 || true,
+{
+    let i = 8 * block;
+    lemma_fundamental_div_mod(i, s); lemma_mod_bound(i, s);
+    lemma_mul_is_commutative(s, i / s);
+    if block > 0 {
+        lemma_fundamental_div_mod(i - 8, s); lemma_mod_bound(i - 8, s);
+        let q = i / s; let r = i % s;
+        // r is a multiple of 8
+        assert(r % 8 == 0) by {
+            lemma_fundamental_div_mod(s, 8); lemma_mul_is_commutative(8, s / 8);
+            assert(q * s == 8 * (q * (s / 8))) by (nonlinear_arith) requires s == 8 * (s / 8);
+            assert(r == 8 * block - 8 * (q * (s / 8)));
+            assert(r == 8 * (block - q * (s / 8)));
+            lemma_mod_multiples_basic(block - q * (s / 8), 8);
+            lemma_mul_is_commutative(8, block - q * (s / 8));
+        }
+        if r == 0 {
+            assert((q - 1) * s == q * s - s) by (nonlinear_arith);
+            lemma_fundamental_div_mod_converse(i - 8, s, q - 1, s - 8);
+        } else {
+            assert(r >= 8);
+            lemma_fundamental_div_mod_converse(i - 8, s, q, r - 8);
+        }
+    }
+}
+
+proof fn lemma_mod8(x: int, s: int)
+    requires x >= 0, x % 8 == 0, s >= 8, s % 8 == 0
+    ensures (x % s) % 8 == 0, x % s <= s - 8
+{
+    lemma_fundamental_div_mod(x, s); lemma_mod_bound(x, s);
+    lemma_fundamental_div_mod(s, 8); lemma_fundamental_div_mod(x, 8);
+    let q = x / s; let r = x % s;
+    lemma_mul_is_commutative(s, q); lemma_mul_is_commutative(8, s / 8); lemma_mul_is_commutative(8, x / 8);
+    assert(q * s == 8 * (q * (s / 8))) by (nonlinear_arith) requires s == 8 * (s / 8);
+    assert(r == 8 * (x / 8 - q * (s / 8)));
+    lemma_mod_multiples_basic(x / 8 - q * (s / 8), 8);
+    lemma_mul_is_commutative(8, x / 8 - q * (s / 8));
+    if r > s - 8 { assert(r % 8 == 0); assert(false) by { lemma_fundamental_div_mod(r, 8); lemma_fundamental_div_mod(s, 8); lemma_mod_bound(r, 8); } }
+}
+fn superblocks(t: bool, n: usize, s: usize, bits: &BitVec<u8>) -> (res: Vec<SuperblockRank>)
+    requires n == bits.bits().len(), n < 0x7fff_ffff_ffff, s >= 32, s % 8 == 0, s < 0x7fff_ffff,
+    ensures res.len() * s >= n,
+        forall|q: int| 0 <= q < res.len() ==> (#[trigger] res[q]).value() == cnt(bits, t, 0, q * s),
+{
+    let mut superblocks: Vec<SuperblockRank> = Vec::with_capacity(n / s + 1);
+    let mut rank: u64 = 0;
+    let mut last_rank: Option<u64> = None;
+    let mut i = 0;
+    let nblocks = ceil_div8(bits.len());
+    for block in 0..nblocks
+        invariant n == bits.bits().len(), n < 0x7fff_ffff_ffff, s >= 32, s % 8 == 0, s < 0x7fff_ffff, nblocks == (n + 7) / 8,
+            i == 8 * block,
+            rank == cnt(bits, t, 0, 8 * (block as int)),
+            superblocks.len() == nsb(block as int, s as int),
+            forall|q: int| 0 <= q < superblocks.len() ==> (#[trigger] superblocks[q]).value() == cnt(bits, t, 0, q * s),
+    {
+        let b = bits.get_block(block);
+        proof {
+            lemma_nsb(block as int, s as int);
+            lemma_block_cnt(bits, t, block as int, b);
+            lemma_cnt_split(bits, t, 0, 8 * (block as int), 8 * (block as int) + 8);
+            lemma_cnt_bound(bits, t, 0, 8 * (block as int));
+        }
+        if i % s == 0 {
+            superblocks.push(if Some(rank) != last_rank {
+                SuperblockRank::First(rank)
+            } else {
+                SuperblockRank::Some(rank)
+            });
+            last_rank = Some(rank);
+        }
+        rank += if t {
+            b.count_ones() as u64
+        } else {
+            b.count_zeros() as u64
+        };
+        i += 8;
+    }
+    proof {
+        // enough superblocks to cover n bits
+        let nb = nblocks as int; let ss = s as int;
+        if nb > 0 {
+            let x = 8 * nb - 8;
+            lemma_fundamental_div_mod(x, ss); lemma_mod_bound(x, ss);
+            lemma_mul_is_commutative(ss, x / ss);
+            assert(x % 8 == 0) by { lemma_mod_multiples_basic(nb - 1, 8); lemma_mul_is_commutative(8, nb - 1); }
+            lemma_mod8(x, ss);
+            let qq = x / ss;
+            assert(nsb(nb, ss) == qq + 1);
+            assert((qq + 1) * ss == qq * ss + ss) by (nonlinear_arith);
+        }
+    }
+
+    superblocks
+}
 }
 fn main() {}
